@@ -248,6 +248,11 @@ def runner_worker(sub, item):
     th, ob = cards(fns, nf_ff, tgt, OPTIONALS, obs)
     th.update(PTO=0, PTODIS=0, TMC=tmc)
     ob.update(ProjectileDIS=proj, prDIS="NC")
+    if (nf_ff + tmc + len(str(tgt))) % 2 == 0:
+        # a legal, unsorted grid (eko sorts it): the card is echoed as given, the recorded grid is the
+        # one the operators are indexed on
+        g = list(ob["interpolation_xgrid"])
+        ob["interpolation_xgrid"] = g[1::2] + g[0::2][::-1]
     ids = set()
     wt, wo = wrap(th, ids), wrap(ob, ids)
     before = (plain(wt), plain(wo))
@@ -262,6 +267,8 @@ def runner_worker(sub, item):
         echo = out.theory is wt and out.observables is wo and out["pids"] == br.flavor_basis_pids and out["projectilePID"] == pid
         interp = r.configs.managers["interpolator"].to_dict()
         echo = echo and all(k in out and plain(out[k]) == plain(interp[k]) for k in interp)
+        used = [float(v) for v in r.configs.managers["interpolator"].xgrid.raw]
+        echo = echo and used == sorted(float(v) for v in wo["interpolation_xgrid"]) and [float(v) for v in plain(out["xgrid"])["grid"]] == used
         sub.add(ob_eval(f"{name}/echo: cards by reference, interpolator description, pids, projectilePID", echo))
         r2 = rmod.Runner(wt, wo)
         same = plain(r2._theory) == plain(r._theory) and plain(r2._observables) == plain(r._observables)
